@@ -278,11 +278,11 @@ EmbedLaw ==
     ELSE IF \E k \in DOMAIN t : t[k] \in {10, 13} THEN "skip:not_one_line"
     ELSE IF ~IsSinglePara(B.toks) \/ B.toks[2].c # Tr.a.src THEN
          (IF CertainParagraph(t) THEN "one_line_text_is_not_one_paragraph_holding_it" ELSE "skip:block_syntax_in_paragraph_context")
-    ELSE IF ctx \in {"list", "quote"} /\ ~IsAlnum(t[1]) THEN "skip:not_alphanumeric_start"
+    ELSE IF ctx \in {"list", "quote", "list2"} /\ ~IsAlnum(t[1]) THEN "skip:not_alphanumeric_start"
     ELSE IF ctx = "atx" /\ t[Len(t)] = 35 THEN "skip:trailing_hash"
-    ELSE IF ctx = "cell" /\ \E k \in DOMAIN t : t[k] \in {124, 92, 96} THEN "skip:pipe_backslash_backtick_in_cell"
+    ELSE IF ctx \in {"cell", "cell2"} /\ \E k \in DOMAIN t : t[k] \in {124, 92, 96} THEN "skip:pipe_backslash_backtick_in_cell"
     ELSE LET ins == InlineOf(D.toks)
-             want == IF ctx = "cell" THEN 2 ELSE 1    \* header cell + the body cell
+             want == IF ctx \in {"cell", "cell2", "list2"} THEN 2 ELSE 1    \* header cell + body cell / two items
          IN
          IF Len(ins) # want THEN "inline_token_count"
          ELSE IF ins[want].c # B.toks[2].c THEN "content"
